@@ -117,6 +117,46 @@ impl Backoff {
     }
 }
 
+/// Verification hooks (only compiled with `--cfg p2panda_p2panda_verif`).
+#[cfg(p2panda_p2panda_verif)]
+impl Config {
+    pub fn verif_new(
+        initial_value: Duration,
+        min_increment: Duration,
+        max_increment: Duration,
+        max_value: Duration,
+        min_reset: Duration,
+        max_reset: Duration,
+    ) -> Self {
+        Self {
+            initial_value,
+            min_increment,
+            max_increment,
+            max_value,
+            min_reset,
+            max_reset,
+        }
+    }
+}
+
+/// Verification hooks (only compiled with `--cfg p2panda_p2panda_verif`).
+#[cfg(p2panda_p2panda_verif)]
+impl Backoff {
+    pub fn verif_value(&self) -> Duration {
+        self.value
+    }
+
+    pub fn verif_reset_after(&self) -> Duration {
+        self.reset_after
+    }
+
+    /// Pretend that `duration` passed since the last reset: shortens the remaining waiting time
+    /// (equivalent to moving `last_reset_at` back, without `Instant` arithmetic).
+    pub fn verif_elapse(&mut self, duration: Duration) {
+        self.reset_after = self.reset_after.saturating_sub(duration);
+    }
+}
+
 #[cfg(test)]
 mod tests {
     use std::time::Duration;
